@@ -29,7 +29,6 @@ cp $s/patch.diff $d/patch.diff; cp $testfile $d/$(basename $testfile); cp $s/not
 python3 - "$id" "$testfile" "$pkgdir" "$with_demo" "$with_suite" "$without_demo" > $d/meta.json <<'PY'
 import json,sys,re
 id,testfile,pkg,wd,ws,wod=sys.argv[1:7]
-notes=open(f'/verif/seeded/{id}/notes.md').read() if True else ''
 print(json.dumps({"property":id,"demo_test_path":testfile,"package":pkg,
  "needs_to_manifest":"see notes.md",
  "confirmed":{"base":"/repo HEAD at confirmation time (scratch worktree)","with_change_demo":wd,"with_change_existing_pkg_tests":ws,"without_change_demo":wod,
